@@ -351,6 +351,8 @@ func confExec(tok []string) string {
 		return confSValV(tok)
 	case "ccval":
 		return confCCVal(tok)
+	case "ty":
+		return confTy(tok)
 	case "nr":
 		return confNR(tok)
 	case "bweq":
